@@ -558,7 +558,7 @@ func (runInfo *runInfoStruct) runForMapStmt(stmt *ast.ForStmt, value reflect.Val
 		default:
 		}
 
-		runInfo.env.DefineValue(stmt.Vars[0], keys[i])
+		runInfo.env.DefineValue(stmt.Vars[0], detachValue(keys[i]))
 
 		if len(stmt.Vars) > 1 {
 			mapValue := value.MapIndex(keys[i])
@@ -566,7 +566,8 @@ func (runInfo *runInfoStruct) runForMapStmt(stmt *ast.ForStmt, value reflect.Val
 				// the entry was deleted by the loop body
 				mapValue = nilValue
 			}
-			runInfo.env.DefineValue(stmt.Vars[1], mapValue)
+			// bound by value like every name: a struct or array value gets a cell of its own
+			runInfo.env.DefineValue(stmt.Vars[1], detachValue(mapValue))
 		}
 
 		runInfo.stmt = stmt.Stmt
